@@ -225,8 +225,9 @@ def check_data_multi(ctx, rng):
                     ctx.report(f'payload-returned-without-own-validator:{fe}', f'Interest {j} got the payload but its validator was never consulted', w)
                 elif accept and got != 'data':
                     ctx.event('observation:accepted-data-not-returned')      # the "if" direction is C03's (Data iff it matches in time)
-                elif not accept and (not isinstance(got, tuple)):
-                    ctx.report(f'refused-data-wrong-outcome:{fe}', f'Interest {j}: validator refuses but the outcome is {got!r}', w)
+                elif not accept and (not isinstance(got, tuple)) and vlog.count(j) > 0:
+                    # only when this Interest's validator was consulted (and refused): a refusing verdict must surface as a validation failure
+                    ctx.report(f'refused-data-wrong-outcome:{fe}', f'Interest {j}: its validator was consulted and refuses but the outcome is {got!r}', w)
 
 
 # ------------------------------------------------------------------ Interest side
